@@ -31,6 +31,7 @@ type World struct {
 	std       *ContractSet                 // assumed contracts for dependencies (/verif/contracts/*.spec)
 	funcDecls map[*types.Func]*ast.FuncDecl
 	globalInit map[*types.Var]ast.Expr
+	ledgerLocals map[string][][2]string // per unit: local variable names and types recorded in the ledger (rename-robust binding)
 	loadSecs  float64
 }
 
